@@ -20,19 +20,21 @@ from common import Ctx
 from leanbuild import lean_obligations
 
 ONLY_GIT = dict(include=["*"], exclude=[".git/"], files_max_size=0, respect_gitignore=True)
-QUIRK = re.compile(r"^\s*!.*/\s*$|/\*\*\s*$")
+def spec_listing(root: Path) -> set[str]:
+    """git's rule evaluated with pathspec as the per-pattern matcher (the SPEC of FM/Props/C18.lean, in Python)"""
+    must, may = fstree.wanted_walk(root, ONLY_GIT)
+    return may
 
 
-def strip_quirks(root: Path) -> bool:
-    """counterfactual for C18-pathspec-dir-pattern-quirks: drop negated directory patterns and trailing '/**' patterns"""
-    changed = False
-    for gi in root.rglob(".gitignore"):
-        lines = gi.read_text().split("\n")
-        keep = [l for l in lines if not QUIRK.search(l)]
-        if keep != lines:
-            gi.write_text("\n".join(keep))
-            changed = True
-    return changed
+def judge(ctx: Ctx, clause: str, case: dict, root: Path, real: set[str], g: set[str]) -> None:
+    """real vs git; a disagreement is pathspec's (known finding) only if the resolver does exactly what git's rule says when
+    pathspec is asked about each single pattern list — otherwise it is the resolver's"""
+    if real == g:
+        return
+    detail = {"listed-but-git-ignores": sorted(x.replace(str(root), "") for x in real - g)[:8],
+              "git-lists-but-missing": sorted(x.replace(str(root), "") for x in g - real)[:8]}
+    known = "C18-pathspec-dir-pattern-quirks" if real == spec_listing(root) else None
+    ctx.fail(clause, case, detail, known=known)
 
 
 def git_oracle(ctx: Ctx, n: int) -> None:
@@ -42,20 +44,11 @@ def git_oracle(ctx: Ctx, n: int) -> None:
         try:
             real = set(fstree.real_resolve(ONLY_GIT, [str(t.root)]))
             g = fstree.git_listing(t.root)
-            every = {str(p) for p in t.root.rglob("*") if p.is_file() and ".git/" not in str(p) + "/" or p.name == ".gitignore"}
-            every = {p for p in every if "/.git/" not in p}
+            every = {str(p) for p in t.root.rglob("*") if p.is_file() and "/.git/" not in str(p)}
             ctx.count(["git", i], nontrivial=g != every, sample=False)
             ctx.bump("git-trees")
-            case = {"tree": resolvetie.listing(t)}
-            if real != g:
-                detail = {"listed-but-git-ignores": sorted(x.replace(str(t.root), "") for x in real - g)[:8],
-                          "git-lists-but-missing": sorted(x.replace(str(t.root), "") for x in g - real)[:8]}
-                known = None
-                if strip_quirks(t.root):
-                    if set(fstree.real_resolve(ONLY_GIT, [str(t.root)])) == fstree.git_listing(t.root):
-                        known = "C18-pathspec-dir-pattern-quirks"
-                ctx.fail("AGREES: the resolver and git disagree about which files are ignored", case, detail, known=known)
-                continue
+            case = {"tree": [l for l in resolvetie.listing(t) if "/.git/" not in l]}
+            judge(ctx, "AGREES: the resolver and git disagree about which files are ignored", case, t.root, real, g)
             off = set(fstree.real_resolve(dict(ONLY_GIT, respect_gitignore=False), [str(t.root)]))
             if off != every:
                 ctx.fail("OFF: with respect_gitignore off the listing is not simply every file", case,
@@ -65,7 +58,8 @@ def git_oracle(ctx: Ctx, n: int) -> None:
 
 
 def sub_root_oracle(ctx: Ctx, n: int) -> None:
-    """the chain starts at the traversal root: walking a sub-directory must agree with git run in that sub-directory"""
+    """the chain starts at the traversal root: walking a sub-directory must agree with git run in that sub-directory, also
+    when the enclosing directory is walked in the same call (before or after)"""
     rng = ctx.rng
     for i in range(n):
         t = fstree.gen_tree(rng, git=True, links=False, toolignore=False)
@@ -73,17 +67,21 @@ def sub_root_oracle(ctx: Ctx, n: int) -> None:
             if not t.dirs:
                 continue
             d = rng.choice(t.dirs)
+            case = {"root": str(d).replace(str(t.base), ""), "tree": resolvetie.listing(t)}
             real = set(fstree.real_resolve(ONLY_GIT, [str(d)]))
-            g = fstree.git_listing(d)
+            spec_d, spec_r = spec_listing(d), spec_listing(t.root)
             ctx.count(["git-sub", i], nontrivial=True)
             ctx.bump("git-subtrees")
-            if real != g:
-                known = None
-                if strip_quirks(d) and set(fstree.real_resolve(ONLY_GIT, [str(d)])) == fstree.git_listing(d):
-                    known = "C18-pathspec-dir-pattern-quirks"
-                ctx.fail("AGREES (sub-directory root): the resolver and git disagree", {"root": str(d).replace(str(t.base), ""), "tree": resolvetie.listing(t)},
-                         {"listed-but-git-ignores": sorted(x.replace(str(d), "") for x in real - g)[:8],
-                          "git-lists-but-missing": sorted(x.replace(str(d), "") for x in g - real)[:8]}, known=known)
+            for order in ([str(t.root), str(d)], [str(d), str(t.root)]):
+                both = set(fstree.real_resolve(ONLY_GIT, order))
+                if both != spec_d | spec_r:
+                    ctx.fail("CHAIN_ROOT: two traversal roots in one call do not give the union of the two traversals",
+                             dict(case, args=[a.replace(str(t.base), "") for a in order]),
+                             {"unexpected": sorted(x.replace(str(t.base), "") for x in both - (spec_d | spec_r))[:8],
+                              "missing": sorted(x.replace(str(t.base), "") for x in (spec_d | spec_r) - both)[:8]})
+                    break
+            g = fstree.git_listing(d)
+            judge(ctx, "AGREES (sub-directory root): the resolver and git disagree", case, d, real, g)
         finally:
             t.close()
 
